@@ -121,6 +121,8 @@ struct Acc {
     per_shape: BTreeMap<&'static str, u64>,
     per_module: BTreeMap<&'static str, u64>,
     clients_hist: [u64; 5],
+    /// (iterator mode label, gapless?, handle kind, operation letters) -> applications on a live handle
+    matrix: BTreeMap<(&'static str, bool, u8, String), u64>,
 }
 
 impl Acc {
@@ -161,6 +163,16 @@ impl Acc {
             }
         }
         *self.per_module.entry(m.name).or_default() += 1;
+        let gl = m.gapless();
+        for (k, i) in &st.applied {
+            let key = (m.iter_mode, gl, *k as u8, hist[*i as usize].op.letters());
+            match self.matrix.get_mut(&key) {
+                Some(c) => *c += 1,
+                None => {
+                    self.matrix.insert(key, 1);
+                }
+            }
+        }
         let nc = hist.iter().map(|e| e.client).max().map(|c| c as usize + 1).unwrap_or(0);
         self.clients_hist[nc.min(4)] += 1;
     }
@@ -195,6 +207,9 @@ impl Acc {
         }
         for k in 0..5 {
             self.clients_hist[k] += o.clients_hist[k];
+        }
+        for (k, v) in o.matrix {
+            *self.matrix.entry(k).or_default() += v;
         }
     }
 }
@@ -670,6 +685,16 @@ fn run_cmd(modules: &'static [&'static Module], args: &[String]) -> ! {
         ("probes", J::Int(total.probes as i128)),
         ("probe_panics", J::Int(total.probe_panics as i128)),
         ("diverged_unreported", J::Int(total.diverged_unreported as i128)),
+        ("op_matrix", {
+            // rows: mode label / gapless / handle kind; cells: op letters -> count
+            let mut rows: BTreeMap<String, Vec<(String, J)>> = BTreeMap::new();
+            for ((mode, gl, k, op), c) in &total.matrix {
+                let kind = ["iter", "range", "names"][*k as usize];
+                let row = format!("{}|{}|{}", mode, if *gl { "gapless" } else { "holes" }, kind);
+                rows.entry(row).or_default().push((op.clone(), J::Int(*c as i128)));
+            }
+            J::Obj(rows.into_iter().map(|(r, cells)| (r, J::Obj(cells))).collect())
+        }),
         ("clients_hist", J::Arr(total.clients_hist.iter().map(|x| J::Int(*x as i128)).collect())),
         ("modes_covered", mapj(&total.per_mode)),
         ("shapes_covered", mapj(&total.per_shape)),
